@@ -62,7 +62,7 @@ CLAIMED = {
    technique="symbolic execution of go/ssa + SMT strings (unit harness)", design="5 C12"),
 
  "C11": dict(
-   text="Unit-level symbolic execution of the real sanitizeAttrs (go/ssa) on an element with up to 2 (quick) / 3 (thorough) attributes whose keys range over href/rel/target/other/free and whose values are free strings, for concrete combinations of the five link options (8 quick / all 31 thorough) and elements a/area/link/other. On every path SMT decides the oracle written from the statement: required rel tokens present as white-space delimited tokens (regular-language membership on the emitted rel), target=_blank on host-qualified <a>, noopener whenever target=_blank, existing rel kept as prefix, no required token appended twice. A rel-token helper, if present, is first proven equivalent to the regular token predicate on its own body and then summarised. Counterexamples are refined to replayable URLs and replayed through the real sanitizeAttrs.",
+   text="Unit-level symbolic execution of the real sanitizeAttrs (go/ssa) on an element with up to 2 attributes whose keys range over href/rel/target/other/free and whose values are free strings, for concrete combinations of the five link options (8 quick / all 31 thorough), with URL checking left on or switched off again afterwards, and elements a/area/link/other. On every path SMT decides the oracle written from the statement: required rel tokens present as white-space delimited tokens (regular-language membership on the emitted rel), target=_blank on host-qualified <a>, noopener whenever target=_blank, existing rel kept as prefix, no required token appended twice. A rel-token helper, if present, is first proven equivalent to the regular token predicate on its own body and then summarised. Counterexamples are refined to replayable URLs and replayed through the real sanitizeAttrs.",
    note="Trusts: validURL replaced by an arbitrary verdict/value stub (C03's subject); url.Parse as an uninterpreted function (A3), the oracle's 'has a host' uses the same function; Fields bounded to 4/5 tokens in the helper lemma; z3 5.1 / cvc5 1.0; go/ssa semantics as interpreted.",
    technique="symbolic execution of go/ssa + SMT strings/regex (unit harness, lemma-validated function summary)", design="5 C11"),
 
